@@ -6,10 +6,14 @@
 // interleaving is known and can be replayed in the model; in mode "free" the goroutines run in parallel.
 // D: at every Observe px.CurrentContext() must be the context handed to the enclosing body, the state of that
 // context must be what its own goroutine's operations (plus the parent's before the fork) made it, and after the
-// case the number of goroutine-local tables must be what it was before.
+// case the number of goroutine-local tables must be what it was before.  Families: corpus, chains (all nestings of
+// scope constructs), forkstate (all container histories of the parent x all fork routes), random, and highgid
+// (gid.go: the same programs and a direct check of threadlocal in a process whose goroutine ids have 6 -> 7 digits).
 // M: program, recorded schedule and per-goroutine traces go to cases_*.v; CorrC14.v runs the machine of
 // coq/Model/Ctx.v on the same schedule and compares the traces (ctx_machine), and evaluates the trace-level
-// statements of Properties/C14.v on the observed traces alone (ctx_spec).
+// statements of Properties/C14.v on the observed traces alone (ctx_spec).  The goroutine ids of sampled goroutines,
+// the first line of their runtime.Stack and what threadlocal.Getg() returned go to cases_gid.v (gid_machine /
+// gid_spec: Model/CtxGid.v computes the same line and the same key).
 package main
 
 import (
@@ -140,11 +144,23 @@ func main() {
 	if cfg.Replay != "" {
 		r.replay()
 	} else {
+		r.startResidents(16)
+		r.gidSamples(24, "start")
 		r.corpus()
+		r.gidSamples(8, "after-corpus")
+		r.checkResidents("after-corpus")
 		r.chains()
 		// lib.NewRng(seed) starts the splitmix sequence at seed*gamma: the streams of seeds k and k+1 are the same
 		// stream shifted by one draw.  Hash the seed first so that different seeds give unrelated programs.
+		r.gidSamples(24, "after-chains")
+		r.forkStates("forkstate", 0, fsRoutes, 5, "cases_forkstate")
+		r.gidSamples(24, "after-forkstate")
 		r.random(lib.NewRng(lib.NewRng(cfg.Seed).Next()))
+		r.gidSamples(24, "after-random")
+		r.checkResidents("after-random")
+		// last, because it needs a process that has started a million goroutines
+		r.highGids()
+		r.stopResidents()
 	}
 	for name, cf := range r.files {
 		res.CorrFiles = append(res.CorrFiles, cf.WriteTo(cfg.Out, name))
@@ -160,6 +176,14 @@ func (r *runner) replay() {
 			Case Case   `json:"case"`
 		}
 		lib.Remarshal(in, &x)
+		if x.Kind == "c14-tls" {
+			r.replayTLS(in)
+			continue
+		}
+		if x.Kind == "c14-resident" {
+			r.replayResidents(in)
+			continue
+		}
 		if x.Kind != "c14" {
 			continue
 		}
@@ -185,8 +209,14 @@ var policies = []string{"lifo", "fifo", "rr", "random", "sticky"}
 
 // schedules runs one program under the deterministic policies (+ random ones) and once freely
 func (r *runner) schedules(roots [][]Prog, family string, rng *lib.Rng, nRandom int, free bool, toCoq func(i int) string) {
+	r.schedulesG(roots, family, rng, nRandom, free, 0, toCoq)
+}
+
+// schedulesG: the same in a process that has started at least minGid goroutines (Case.MinGid)
+func (r *runner) schedulesG(roots [][]Prog, family string, rng *lib.Rng, nRandom int, free bool, minGid int64, toCoq func(i int) string) {
 	i := 0
 	run := func(cs *Case) {
+		cs.MinGid = minGid
 		r.check(cs, family, toCoq(i))
 		i++
 	}
